@@ -26,7 +26,8 @@ for name in sorted(os.listdir("seeded")):
     out = p.stdout.decode(errors="replace")
     m = re.search(r"exit=(\d+) violations=(\d+)", out)
     ok = bool(m) and m.group(1) == "1" and int(m.group(2)) > 0
-    print(f"{name}: {chk} {'caught' if ok else 'NOT CAUGHT: ' + out.strip()[:200]}", flush=True)
+    detail = " | ".join(l.strip() for l in out.splitlines()[1:3])[:400]
+    print(f"{name}: {chk} {'caught' if ok else 'NOT CAUGHT: ' + out.strip()[:200]} :: {detail if ok else ''}", flush=True)
     if not ok:
         bad += 1
 sys.exit(1 if bad else 0)
